@@ -41,16 +41,18 @@ type c01Behave struct {
 }
 
 type c01Scenario struct {
-	RefImpact  float64       `json:"ref_impact"`
-	PeerImpact float64       `json:"peer_impact"`
-	Cutoff     int64         `json:"cutoff_ns"`
-	Timeout    int64         `json:"timeout_ns"`
-	Interval   int64         `json:"interval_ns"`
-	DriftOfI   int64         `json:"drift_of_interval_ns"`
-	Rounds     int           `json:"rounds"`
-	Refs       [][]c01Behave `json:"ref_clocks"` // [clock][round]
-	Peers      [][]c01Behave `json:"peers"`
-	Bad        string        `json:"inadmissible,omitempty"`
+	RefImpact   float64       `json:"-"` // (NaN and Inf have no JSON form: see RefImpactJ)
+	RefImpactJ  string        `json:"ref_impact"`
+	PeerImpactJ string        `json:"peer_impact"`
+	PeerImpact  float64       `json:"-"`
+	Cutoff      int64         `json:"cutoff_ns"`
+	Timeout     int64         `json:"timeout_ns"`
+	Interval    int64         `json:"interval_ns"`
+	DriftOfI    int64         `json:"drift_of_interval_ns"`
+	Rounds      int           `json:"rounds"`
+	Refs        [][]c01Behave `json:"ref_clocks"` // [clock][round]
+	Peers       [][]c01Behave `json:"peers"`
+	Bad         string        `json:"inadmissible,omitempty"`
 	// > 0: the clock's drift allowance is the real clocks.SystemClock's, configured with this
 	// drift per second; DriftOfI is then the independently computed drift x interval
 	DriftPerSec int64 `json:"system_clock_drift_ns_per_s,omitempty"`
@@ -374,25 +376,42 @@ func firstWord(s string) string {
 // timeout (so no slot of the result slice carries a value of an earlier round).
 func c01Structure(r *ev.Run, id string, sc *c01Scenario, round int, corr int64, refMax, peerMax float64, w func(map[string]any) map[string]any) {
 	const lim = int64(1) << 62
+	// the values of a round are those of the sources that answered successfully before the timeout in
+	// that round; a source that fails, is late or never answers contributes nothing (what it reported in
+	// earlier rounds is not a measurement of this round), and with no answer at all the side's offset is 0
+	partial := false
 	side := func(scripts [][]c01Behave) (vals []int64, determined bool) {
 		determined = true
 		for _, s := range scripts {
 			if round >= len(s) {
-				return nil, false
+				partial = true
+				continue
 			}
 			b := s[round]
-			if !(b.Kind == 0 || b.Kind == 3) || b.Delay >= sc.Timeout || b.Off <= -lim || b.Off >= lim {
+			switch {
+			case !(b.Kind == 0 || b.Kind == 3) || b.Delay > sc.Timeout:
+				partial = true
+				continue
+			case b.Delay == sc.Timeout: // a tie with the deadline can go either way
+				return nil, false
+			case b.Off <= -lim || b.Off >= lim:
 				return nil, false
 			}
 			vals = append(vals, b.Off)
+		}
+		if len(scripts) > 0 && len(vals) == 0 {
+			vals = []int64{0}
 		}
 		return vals, determined
 	}
 	rv, rdet := side(sc.Refs)
 	pv, pdet := side(sc.Peers)
 	if !rdet || !pdet {
-		r.Class("round:bounds-only(stale or failing sources)")
+		r.Class("round:bounds-only(answer exactly at the deadline, or offsets beyond 2^62)")
 		return
+	}
+	if partial {
+		r.Class("round:some sources failed, were late or silent: judged on the answers of this round only")
 	}
 	var rlo, rhi int64
 	refOk := len(rv) > 0
@@ -484,12 +503,18 @@ func c01Gen(rng *rand.Rand, bad int) *c01Scenario {
 	}
 	switch bad {
 	case 1:
-		sc.RefImpact = []float64{1, 0.5, 0, -3}[rng.IntN(4)]
+		sc.RefImpact = []float64{1, 0.5, 0, -3, math.NaN(), math.Inf(1), math.Inf(-1)}[rng.IntN(7)]
 		sc.Bad = "reference factor <= 1"
+		if math.IsNaN(sc.RefImpact) || math.IsInf(sc.RefImpact, 0) {
+			sc.Bad = "reference factor is not a number above 1"
+		}
 	case 2:
-		sc.PeerImpact = []float64{1, 0.99, 0, -1}[rng.IntN(4)]
+		sc.PeerImpact = []float64{1, 0.99, 0, -1, math.NaN(), math.Inf(1)}[rng.IntN(6)]
 		sc.RefImpact = 1.25
 		sc.Bad = "peer factor <= 1"
+		if math.IsNaN(sc.PeerImpact) || math.IsInf(sc.PeerImpact, 0) {
+			sc.Bad = "peer factor is not a number above 1"
+		}
 	case 3:
 		sc.PeerImpact = sc.RefImpact + []float64{1, 0.5, 0, -0.5}[rng.IntN(4)]
 		sc.Bad = "peer factor does not exceed reference factor by more than 1"
@@ -574,6 +599,7 @@ func c01Gen(rng *rand.Rand, bad int) *c01Scenario {
 		nr, np = 1+rng.IntN(2), 3+rng.IntN(4)
 	}
 	sc.Refs, sc.Peers = mkSide(nr), mkSide(np)
+	sc.RefImpactJ, sc.PeerImpactJ = fmt.Sprint(sc.RefImpact), fmt.Sprint(sc.PeerImpact)
 	return sc
 }
 
